@@ -43,7 +43,8 @@ Definition jwk_eqb (a b : jwk) : bool :=
 
 Inductive c16case :=
 | mk_c16ec (kind : string) (x y : Z) (impl : option jwk) (back_ok : bool) (width : nat) (tampered : list (jwk * bool))
-| mk_c16ed (pub : string) (impl : option jwk) (back_ok : bool) (tampered : list (jwk * bool)).
+| mk_c16ed (pub : string) (impl : option jwk) (back_ok : bool) (tampered : list (jwk * bool))
+| mk_c16params (unchanged : bool).
 
 Fixpoint judge_tampered_ec (idx : nat) (l : list (jwk * bool)) : verdict :=
   match l with
@@ -97,4 +98,7 @@ Definition judge_c16 (c : c16case) : verdict :=
                end
       | None => SpecFail 8
       end
+  | mk_c16params unchanged =>
+      (* reading and writing keys left the curves' process-wide parameters as they were *)
+      if unchanged then Pass else SpecFail 9
   end.
